@@ -76,6 +76,13 @@ func Match(fingerprint, target any) bool {
 		if f1, ok := asFloat(target); !ok || f0 != f1 {
 			return false
 		}
+		// A large integer converted to a float is rounded so compare as
+		// integers as well when the other value is one.
+		if i1, ok := asInt(target); ok {
+			if i0, ok := asInt(fp); !ok || i0 != i1 {
+				return false
+			}
+		}
 	case string:
 		if t1, ok := target.(string); !ok || fp != t1 {
 			return false
@@ -144,6 +151,12 @@ func diff(v0, v1 any, one bool, ignores ...Path) (diffs []Path) {
 		f0, _ := asFloat(v0)
 		if f1, ok := asFloat(v1); !ok || f0 != f1 {
 			diffs = append(diffs, Path{nil})
+		} else if i1, ok := asInt(v1); ok {
+			// A large integer converted to a float is rounded so compare as
+			// integers as well when the other value is one.
+			if i0, ok := asInt(v0); !ok || i0 != i1 {
+				diffs = append(diffs, Path{nil})
+			}
 		}
 	case string:
 		if t1, ok := v1.(string); !ok || t0 != t1 {
